@@ -7,6 +7,7 @@ import (
 	"os"
 	"path/filepath"
 	"sort"
+	"strconv"
 	"strings"
 )
 
@@ -110,7 +111,11 @@ func genRouteCompile() string {
 // matcher set per loaded set, empty or not) and of the handler loop of Route.ProvisionHandlers.
 func routeStateFacts(files []string) string {
 	keys := map[string]bool{"routeGroupCtxKey": true, "VarsCtxKey": true, "ErrorCtxKey": true, "OriginalRequestCtxKey": true}
-	var writes, groupUses, fromIface, provHandlers, notProv []string
+	var fromIface, provHandlers, notProv []string
+	siteCount := map[string]map[string]int{} // function → what → count (package caddyhttp only)
+	calls := map[string][]string{}           // function → called names
+	byName := map[string][]string{}          // bare name → functions/methods of that name
+	total := map[string]int{}                // what → count under modules/caddyhttp/**
 	stmtText := func(st ast.Stmt) string {
 		switch v := st.(type) {
 		case *ast.DeclStmt:
@@ -153,7 +158,35 @@ func routeStateFacts(files []string) string {
 			if !ok || fd.Body == nil {
 				continue
 			}
-			where := rel + ":" + fd.Name.Name
+			// what the function does with the request-context keys (by the key ARGUMENT of a
+			// context.WithValue / Value call, whatever locals or helpers are called), and which
+			// same-package functions it calls (followed below from the entry points)
+			fkey := fd.Name.Name
+			if fd.Recv != nil && len(fd.Recv.List) == 1 {
+				fkey = strings.TrimPrefix(exprText(fd.Recv.List[0].Type), "*") + "." + fd.Name.Name
+			}
+			inPkg := filepath.Dir(rel) == "modules/caddyhttp"
+			if inPkg {
+				byName[fd.Name.Name] = append(byName[fd.Name.Name], fkey)
+				if siteCount[fkey] == nil {
+					siteCount[fkey] = map[string]int{}
+				}
+			}
+			bump := func(what string) {
+				total[what]++
+				if inPkg {
+					siteCount[fkey][what]++
+				}
+			}
+			keyOf := func(e ast.Expr) string {
+				switch v := e.(type) {
+				case *ast.Ident:
+					return v.Name
+				case *ast.SelectorExpr:
+					return v.Sel.Name
+				}
+				return ""
+			}
 			inCall := map[*ast.Ident]bool{}
 			ast.Inspect(fd.Body, func(x ast.Node) bool {
 				c, ok := x.(*ast.CallExpr)
@@ -161,25 +194,31 @@ func routeStateFacts(files []string) string {
 					return true
 				}
 				fun := exprText(c.Fun)
-				if strings.HasSuffix(fun, "WithValue") && len(c.Args) == 3 {
-					k := exprText(c.Args[1])
-					k = k[strings.LastIndex(k, ".")+1:]
-					if keys[k] {
-						writes = append(writes, "("+leanStr(where)+", "+leanStr(k)+", "+leanStr(exprText(c.Args[2]))+")")
-					}
+				sel := fun[strings.LastIndex(fun, ".")+1:]
+				if inPkg {
+					calls[fkey] = append(calls[fkey], sel)
 				}
-				for _, a := range c.Args {
-					if id, ok := a.(*ast.Ident); ok && id.Name == "routeGroupCtxKey" {
-						inCall[id] = true
-						sel := fun[strings.LastIndex(fun, ".")+1:]
-						groupUses = append(groupUses, "("+leanStr(where)+", "+leanStr(sel)+")")
+				if sel == "WithValue" && len(c.Args) == 3 && keys[keyOf(c.Args[1])] {
+					bump("WithValue " + keyOf(c.Args[1]))
+				}
+				if sel == "Value" && len(c.Args) == 1 && keyOf(c.Args[0]) == "routeGroupCtxKey" {
+					bump("Value routeGroupCtxKey")
+				}
+				if (sel == "WithValue" && len(c.Args) == 3) || (sel == "Value" && len(c.Args) == 1) {
+					for _, a := range c.Args {
+						ast.Inspect(a, func(y ast.Node) bool {
+							if id, ok := y.(*ast.Ident); ok && id.Name == "routeGroupCtxKey" {
+								inCall[id] = true
+							}
+							return true
+						})
 					}
 				}
 				return true
 			})
 			ast.Inspect(fd.Body, func(x ast.Node) bool {
 				if id, ok := x.(*ast.Ident); ok && id.Name == "routeGroupCtxKey" && !inCall[id] {
-					groupUses = append(groupUses, "("+leanStr(where)+", "+leanStr("other")+")")
+					bump("other routeGroupCtxKey")
 				}
 				return true
 			})
@@ -211,10 +250,52 @@ func routeStateFacts(files []string) string {
 		}
 	}
 	var sb strings.Builder
-	sb.WriteString("\n/-- every write of a request-context value the routing reads (`context.WithValue(_, K, _)`, K among\n    routeGroupCtxKey / VarsCtxKey / ErrorCtxKey / OriginalRequestCtxKey) under modules/caddyhttp/**:\n    (file:function, key, value) -/\n")
-	sb.WriteString("def requestCtxWrites : List (String × String × String) := [\n  " + strings.Join(writes, ",\n  ") + "]\n")
-	sb.WriteString("\n/-- every mention of `routeGroupCtxKey` inside a function body: (file:function, the call it is an\n    argument of — `WithValue` creates the map, `Value` reads it — or \"other\") -/\n")
-	sb.WriteString("def routeGroupCtxUses : List (String × String) := [\n  " + strings.Join(groupUses, ",\n  ") + "]\n")
+	// reachability from the entry points over same-package static calls; a called name is followed
+	// only if exactly one function/method of the package has it (no interface dispatch: ServeHTTP,
+	// Provision, Compile … are not followed)
+	roots := []string{"PrepareRequest", "wrapRoute", "HTTPErrorConfig.WithError", "Subroute.ServeHTTP", "Server.ServeHTTP"}
+	whats := []string{"WithValue routeGroupCtxKey", "Value routeGroupCtxKey", "WithValue VarsCtxKey", "WithValue OriginalRequestCtxKey", "WithValue ErrorCtxKey"}
+	var writes, groupUses []string
+	for _, root := range roots {
+		seen := map[string]bool{}
+		var visit func(f string)
+		visit = func(f string) {
+			if seen[f] || siteCount[f] == nil {
+				return
+			}
+			seen[f] = true
+			for _, n := range calls[f] {
+				if c := byName[n]; len(c) == 1 && c[0] != "PrepareRequest" {
+					visit(c[0])
+				}
+			}
+		}
+		visit(root)
+		for _, w := range whats {
+			n := 0
+			for f := range seen {
+				n += siteCount[f][w]
+			}
+			line := "(" + leanStr(root) + ", " + leanStr(w) + ", " + strconv.Itoa(n) + ")"
+			if strings.HasSuffix(w, "routeGroupCtxKey") {
+				groupUses = append(groupUses, line)
+			} else {
+				writes = append(writes, line)
+			}
+		}
+	}
+	for _, w := range append(whats, "other routeGroupCtxKey") {
+		line := "(" + leanStr("total modules/caddyhttp/**") + ", " + leanStr(w) + ", " + strconv.Itoa(total[w]) + ")"
+		if strings.HasSuffix(w, "routeGroupCtxKey") {
+			groupUses = append(groupUses, line)
+		} else {
+			writes = append(writes, line)
+		}
+	}
+	sb.WriteString("\n/-- writes of the request-context values the routing reads (`context.WithValue(_, K, _)` identified by\n    its key argument): (entry point, what, number of such calls in the functions reachable from the\n    entry point over same-package static calls — PrepareRequest itself is not followed into from\n    Server.ServeHTTP, it has its own row), plus the totals under modules/caddyhttp/** -/\n")
+	sb.WriteString("def requestCtxWrites : List (String × String × Nat) := [\n  " + strings.Join(writes, ",\n  ") + "]\n")
+	sb.WriteString("\n/-- the same for the route-group map: `WithValue` creates it, `Value` reads it, \"other\" = any other\n    mention of `routeGroupCtxKey` inside a function body -/\n")
+	sb.WriteString("def routeGroupCtxUses : List (String × String × Nat) := [\n  " + strings.Join(groupUses, ",\n  ") + "]\n")
 	sb.WriteString("\n/-- the statements of the outer loop body of `MatcherSets.FromInterface` (one round per loaded matcher set) -/\n")
 	sb.WriteString("def fromInterfaceLoopBody : List String := [\n  " + strings.Join(fromIface, ",\n  ") + "]\n")
 	sb.WriteString("\n/-- the statements of the outer loop body of `MatchNot.Provision` (one round per loaded matcher set of a `not`) -/\n")
